@@ -5,6 +5,8 @@ import "context"
 func init() {
 	verifRegister("VerifC13Dispose", VerifC13Dispose)
 	verifRegister("VerifC04Nested", VerifC04Nested)
+	verifRegister("VerifC13InFlight", VerifC13InFlight)
+	verifRegister("VerifC04Race", VerifC04Race)
 	verifRegister("VerifC08Fault", VerifC08Fault)
 	verifRegister("VerifC11Determinism", VerifC11Determinism)
 }
@@ -96,6 +98,166 @@ func VerifC13Dispose() {
 	vAssert("context-ended", m.Context().Err() != nil)
 }
 
+// VerifC13InFlight: DisposeForce lands inside a running transition - from a tracer hook (init, start,
+// finals, end: the points between the steps of a transition, as a concurrent caller would hit them) or
+// from inside a negotiation / final handler of the same machine. Every waiter is released, the call
+// returns, later calls are neutral.
+func VerifC13InFlight() {
+	s := verifNewScn(2, false, false, false, true, true, false)
+	s.inject(false)
+	m := s.m
+	type waiter struct {
+		name string
+		ch   <-chan struct{}
+	}
+	var ws []waiter
+	st := s.names[vInt(0, 1)]
+	if vBool() {
+		ws = append(ws, waiter{"When", m.When1(st, nil)})
+	}
+	if vBool() {
+		ws = append(ws, waiter{"WhenNot", m.WhenNot1(st, nil)})
+	}
+	if vBool() {
+		ws = append(ws, waiter{"WhenTime", m.WhenTime1(st, m.Tick(st)+1, nil)})
+	}
+	if vBool() {
+		ws = append(ws, waiter{"WhenBoth", m.When(S{"A", "B"}, nil)})
+	}
+	if vBool() {
+		ws = append(ws, waiter{"WhenQuery", m.WhenQuery(func(c Clock) bool { return true }, nil)})
+	}
+	var sctx context.Context
+	if vBool() {
+		sctx = m.NewStateCtx(st)
+	}
+	at := vParam("at", -1)
+	if at < 0 {
+		at = vInt(0, 5)
+	}
+	landed := false
+	land := func() {
+		if !landed {
+			landed = true
+			m.DisposeForce()
+		}
+	}
+	s.traceHook = func(kind string) {
+		if (at == 0 && kind == "init") || (at == 1 && kind == "start") || (at == 2 && kind == "finals") || (at == 3 && kind == "end") {
+			land()
+		}
+	}
+	s.eventHook = func(name string, e *Event) {
+		if (at == 4 && verifRank(name) <= 3) || (at == 5 && verifRank(name) == 4) {
+			land()
+		}
+	}
+	mst := s.names[vInt(0, 1)]
+	if vBool() {
+		m.Add1(mst, nil)
+	} else {
+		m.Remove1(mst, nil)
+	}
+	vAssume(landed)
+	vReach("inflight")
+	vAssert("when-disposed-closed", verifClosed(m.WhenDisposed()))
+	vAssert("is-disposed", m.IsDisposed())
+	all := true
+	for _, w := range ws {
+		if !verifClosed(w.ch) {
+			all = false
+		}
+	}
+	vAssert("waiters-released", all)
+	if sctx != nil {
+		vAssert("state-ctx-cancelled", sctx.Err() != nil)
+	}
+	vAssert("add-after-dispose-canceled", m.Add1("B", nil) == Canceled)
+	vAssert("remove-after-dispose-canceled", m.Remove1("A", nil) == Canceled)
+	vAssert("when-after-dispose-closed", verifClosed(m.When1("B", nil)))
+	vAssert("context-ended", m.Context().Err() != nil)
+}
+
+// VerifC04Race: a second goroutine's mutation lands, as one atomic block, at a symbolic point of the
+// first goroutine's queueMutation / processQueue (every statement boundary where no mutex is held).
+// One transition at a time, ticks in order, nothing stranded: once both calls have returned the
+// machine is idle, so the queue must be empty and every ticked mutation processed.
+func VerifC04Race() {
+	s := verifNewScn(2, false, false, false, true, true, false)
+	s.inject(false)
+	m := s.m
+	k2 := vParam("mut2", -1)
+	if k2 < 0 {
+		k2 = vInt(0, 2)
+	}
+	called2 := verifCalled(s.names)
+	vAssume(len(called2) > 0)
+	ran2 := false
+	var res2 Result
+	var wq <-chan struct{}
+	vPreempt(func() {
+		ran2 = true
+		switch k2 {
+		case 0:
+			res2 = m.Add(called2, nil)
+		case 1:
+			res2 = m.Remove(called2, nil)
+		default:
+			res2 = m.Set(called2, nil)
+		}
+		if res2 > Canceled {
+			wq = m.WhenQueue(res2)
+		}
+	})
+	_, _, res1 := s.mutate()
+	vAssume(ran2)
+	vReach("race")
+	vLog("res1", uint64(res1))
+	vLog("res2", uint64(res2))
+	depth, overlap := 0, false
+	queued, ended := 0, 0
+	ordered := true
+	var lastTick uint64
+	seen2, acc2 := false, false
+	for _, e := range s.tr.log {
+		switch e.kind {
+		case "queued":
+			queued++
+		case "init":
+			depth++
+			if depth > 1 {
+				overlap = true
+			}
+		case "end":
+			depth--
+			ended++
+			if e.mut.QueueTick > 0 {
+				if e.mut.QueueTick < lastTick {
+					ordered = false
+				}
+				lastTick = e.mut.QueueTick
+			}
+			if res2 > Canceled && e.mut.QueueTick == uint64(res2) {
+				seen2 = true
+				acc2 = e.acc
+			}
+		}
+	}
+	vAssert("one-transition-at-a-time", !overlap)
+	vAssert("processed-in-tick-order", ordered)
+	// the known window: the other call lands after the drain loop's last length check and before the
+	// processing flag is released
+	vKnown("c04-mutation-stranded-in-release-window", verifPreemptAt == "processQueue: m.t.Store(nil)" ||
+		verifPreemptAt == "processQueue: m.queueProcessing.Store(false)")
+	vAssert("queue-empty-when-idle", len(m.queue) == 0 && m.queueLen.Load() == 0 && !m.queueProcessing.Load())
+	vAssert("every-queued-mutation-processed", queued == ended)
+	if res2 > Canceled {
+		vAssert("ticked-mutation-processed", seen2 && m.queueTick >= uint64(res2))
+		vKnown("c04-whenqueue-not-closed-when-canceled", seen2 && !acc2)
+		vAssert("whenqueue-closed-once-processed", verifClosed(wq))
+	}
+}
+
 // VerifC04Nested: a mutation issued from inside a handler is queued, runs after the current
 // transition in queue-tick order, and its WhenQueue channel closes once it has been processed.
 func VerifC04Nested() {
@@ -117,9 +279,16 @@ func VerifC04Nested() {
 	var wq <-chan struct{}
 	tick0 := m.queueTick
 	logAtNest := -1
+	// what else sits in the queue: 0 nothing; 1 a tick-less check mutation (CanAdd1) is prepended before the
+	// nested mutation; 2 an Eval whose context has already ended is prepended in front of it afterwards
+	around := vParam("around", 0)
+	evalRan := false
 	s.nestFn = func() {
 		nested = true
 		logAtNest = len(s.tr.log)
+		if around == 1 {
+			m.CanAdd1(s.names[vInt(0, 1)], nil)
+		}
 		switch nk {
 		case 0:
 			nres = m.Add(ncalled, nil)
@@ -130,6 +299,11 @@ func VerifC04Nested() {
 		}
 		if nres > Canceled {
 			wq = m.WhenQueue(nres)
+		}
+		if around == 2 {
+			ectx, ecancel := context.WithCancel(context.Background())
+			ecancel()
+			m.Eval("verif", func() { evalRan = true }, ectx)
 		}
 	}
 	_, _, res := s.mutate()
@@ -159,6 +333,7 @@ func VerifC04Nested() {
 		}
 	}
 	vAssert("never-nested", !ranInline)
+	vAssert("expired-eval-never-runs", !evalRan)
 	vAssert("nested-returns-tick-or-noop", nres > Canceled || nres == Executed || nres == Canceled)
 	vAssert("queue-empty-when-idle", len(m.queue) == 0 && m.queueLen.Load() == 0 && !m.queueProcessing.Load())
 	if nres > Canceled {
@@ -197,11 +372,31 @@ func VerifC08Fault() {
 		call++
 		return false
 	}
+	double := vParam("double", 0) == 1
+	excIdx := verifIdx(m.stateNames, StateException)
+	if double {
+		// an earlier fault: Exception is still active when the symbolic fault below happens
+		first := faultAt
+		faultAt = 0
+		m.Add1(s.names[vInt(0, 1)], nil)
+		vAssume(faulted != "")
+		vAssume(m.IsErr())
+		faulted = ""
+		call = 0
+		faultAt = first
+		s.calls = nil
+		s.pre = m.ActiveStates(nil)
+		s.preT = m.time(nil)
+	}
 	_, _, res := s.mutate()
 	vAssume(faulted != "")
 	post := m.ActiveStates(nil)
 	postT := m.time(nil)
 	vReach("fault")
+	if double {
+		// the second fault is handled like the first one: Exception is called again (Multi: a new instance)
+		vAssert("second-fault-reported", postT[excIdx] == s.preT[excIdx]+2)
+	}
 	vLog("res", uint64(res))
 	vAssert("exception-active", m.IsErr())
 	par := true
@@ -263,7 +458,8 @@ func VerifC08Fault() {
 	vAssert("machine-accepts-mutations-after-fault", r2 == Executed && !m.IsErr())
 }
 
-//verif:permute NewAutoMutation TopologicalSort ParseStates
+//verif:permute NewAutoMutation TopologicalSort ParseStates ParseStates>maps.Keys TargetStates>maps.Keys NewAutoMutation>maps.Keys
+//verif:maxpaths 6000
 // VerifC11Determinism: same schema + same mutation give the same result, machine time and handler
 // sequence whatever order the maps are iterated in. Symbolically: two runs with independently
 // chosen iteration orders; natively: 48 re-executions compared with the first.
